@@ -2,7 +2,12 @@
 
 package collection
 
-import "github.com/tidwall/tile38/internal/object"
+import (
+	"github.com/tidwall/geojson"
+	"github.com/tidwall/geojson/geometry"
+	"github.com/tidwall/tile38/internal/field"
+	"github.com/tidwall/tile38/internal/object"
+)
 
 // Exported wrappers for the verification harness (C13). Nothing here is
 // compiled without the "verif" build tag.
@@ -54,4 +59,14 @@ func (c *Collection) VerifNearbyTrace(lat, lon float64) (nodes []VerifNodeKey, i
 		},
 	)
 	return
+}
+
+// VerifNearbyItemDist is the distance Collection.Nearby reports for an object
+// (item == true) whose rectangle is the given one: what DISTANCE prints.
+func VerifNearbyItemDist(lat, lon, minLat, minLon, maxLat, maxLon float64) float64 {
+	o := object.New("", geojson.NewRect(geometry.Rect{
+		Min: geometry.Point{X: minLon, Y: minLat},
+		Max: geometry.Point{X: maxLon, Y: maxLat},
+	}), 0, field.List{})
+	return geodeticDistAlgo([2]float64{lon, lat})([2]float64{}, [2]float64{}, o, true)
 }
